@@ -254,6 +254,167 @@ type consumer struct {
 	arities   []arity
 	ulSubs    []int // labels of the `4:n` sub-switch
 	ulDefault bool  // the `4:n` sub-switch has a default clause
+	ext       []extForm
+	extUnk    []string // shapes under case 38 / 48 / 58 that were not recognised (degrades; `facts_ext_forms` then fails)
+}
+
+// extForm (round 4): the numbers in the body of `case 38 / 48 / 58` of the two [][]int consumers: the two bounds checks of the legacy
+// form (`len(params[i:]) < N` before reading the selector, and under selector 2), the `i += K` jumps (selector 5, selector 2),
+// and the selector each colon form (3, 5, 6 sub-parameters) insists on (`params[i][1] != V` ⇒ return).
+type extForm struct {
+	label                                            int
+	legacyMin, rgbMin, idxSkip, rgbSkip, s3, s5, s6 int
+}
+
+// restLenLess recognises `len(params[i:]) < N`.
+func restLenLess(c *ex.Ctx, e ast.Expr) (int, bool) {
+	be, ok := e.(*ast.BinaryExpr)
+	if !ok || be.Op != token.LSS || c.Src(be.X) != "len(params[i:])" {
+		return 0, false
+	}
+	bl, ok := be.Y.(*ast.BasicLit)
+	if !ok {
+		return 0, false
+	}
+	n, err := strconv.Atoi(bl.Value)
+	return n, err == nil
+}
+
+func returnsAtEnd(b *ast.BlockStmt) bool {
+	if b == nil || len(b.List) == 0 {
+		return false
+	}
+	_, ok := b.List[len(b.List)-1].(*ast.ReturnStmt)
+	return ok
+}
+
+// skipOf finds `i += K` among the statements.
+func skipOf(c *ex.Ctx, l []ast.Stmt) (int, bool) {
+	for _, st := range l {
+		as, ok := st.(*ast.AssignStmt)
+		if ok && as.Tok == token.ADD_ASSIGN && len(as.Lhs) == 1 && c.Src(as.Lhs[0]) == "i" {
+			if bl, ok := as.Rhs[0].(*ast.BasicLit); ok {
+				n, err := strconv.Atoi(bl.Value)
+				return n, err == nil
+			}
+		}
+	}
+	return 0, false
+}
+
+func extractExt(c *ex.Ctx, co *consumer, label int, lenSw *ast.SwitchStmt) {
+	f := extForm{label: label}
+	unk := func(format string, a ...any) {
+		co.extUnk = append(co.extUnk, fmt.Sprintf("case %d: ", label)+fmt.Sprintf(format, a...))
+	}
+	for _, st := range lenSw.Body.List {
+		cc := st.(*ast.CaseClause)
+		if len(cc.List) != 1 {
+			continue
+		}
+		n, _ := strconv.Atoi(c.Src(cc.List[0]))
+		switch n {
+		case 1:
+			okMin, okSel := false, false
+			for _, b := range cc.Body {
+				switch s := b.(type) {
+				case *ast.IfStmt:
+					if k, ok := restLenLess(c, s.Cond); ok && returnsAtEnd(s.Body) && !okMin {
+						f.legacyMin, okMin = k, true
+					} else {
+						unk("legacy form: unrecognised test `%s`", norm(c, s.Cond))
+					}
+				case *ast.SwitchStmt:
+					if s.Tag == nil || c.Src(s.Tag) != "params[i+1][0]" {
+						unk("legacy form: unrecognised switch `%s`", norm(c, s.Tag))
+						continue
+					}
+					okSel = true
+					for _, st2 := range s.Body.List {
+						cc2 := st2.(*ast.CaseClause)
+						if cc2.List == nil {
+							if len(cc2.Body) == 0 {
+								unk("legacy form: empty default clause")
+							} else if _, ok := cc2.Body[len(cc2.Body)-1].(*ast.ReturnStmt); !ok {
+								unk("legacy form: default clause does not return")
+							}
+							continue
+						}
+						if len(cc2.List) != 1 {
+							unk("legacy form: multi-label selector clause")
+							continue
+						}
+						switch c.Src(cc2.List[0]) {
+						case "2":
+							found := false
+							for _, b2 := range cc2.Body {
+								if is, ok := b2.(*ast.IfStmt); ok {
+									if k, ok := restLenLess(c, is.Cond); ok && returnsAtEnd(is.Body) && !found {
+										f.rgbMin, found = k, true
+									} else {
+										unk("legacy RGB form: unrecognised test `%s`", norm(c, is.Cond))
+									}
+								}
+							}
+							if !found {
+								unk("legacy RGB form: no bounds check")
+							}
+							if k, ok := skipOf(c, cc2.Body); ok {
+								f.rgbSkip = k
+							} else {
+								unk("legacy RGB form: no `i += K`")
+							}
+						case "5":
+							for _, b2 := range cc2.Body {
+								if is, ok := b2.(*ast.IfStmt); ok {
+									unk("legacy index form: unexpected test `%s`", norm(c, is.Cond))
+								}
+							}
+							if k, ok := skipOf(c, cc2.Body); ok {
+								f.idxSkip = k
+							} else {
+								unk("legacy index form: no `i += K`")
+							}
+						default:
+							unk("legacy form: selector %s", c.Src(cc2.List[0]))
+						}
+					}
+				}
+			}
+			if !okMin {
+				unk("legacy form: no bounds check before the selector")
+			}
+			if !okSel {
+				unk("legacy form: no selector switch")
+			}
+		case 3, 5, 6:
+			got := false
+			for _, b := range cc.Body {
+				if is, ok := b.(*ast.IfStmt); ok {
+					be, ok := is.Cond.(*ast.BinaryExpr)
+					if ok && be.Op == token.NEQ && c.Src(be.X) == "params[i][1]" && returnsAtEnd(is.Body) && !got {
+						if v, err := strconv.Atoi(c.Src(be.Y)); err == nil {
+							got = true
+							switch n {
+							case 3:
+								f.s3 = v
+							case 5:
+								f.s5 = v
+							case 6:
+								f.s6 = v
+							}
+							continue
+						}
+					}
+					unk("colon form with %d sub-parameters: unrecognised test `%s`", n, norm(c, is.Cond))
+				}
+			}
+			if !got {
+				unk("colon form with %d sub-parameters: no selector test", n)
+			}
+		}
+	}
+	co.ext = append(co.ext, f)
 }
 
 func labelOf(c *ex.Ctx, e ast.Expr, asString bool) (int, bool) {
@@ -348,6 +509,9 @@ func extractConsumer(c *ex.Ctx, fd *ast.FuncDecl, name, tag, lenTag, subTag stri
 			case *ast.SwitchStmt:
 				if s.Tag != nil && c.Src(s.Tag) == lenTag {
 					ar = &arity{}
+					if !asString && len(ls) == 1 && (ls[0] == 38 || ls[0] == 48 || ls[0] == 58) {
+						extractExt(c, co, ls[0], s)
+					}
 					for _, st2 := range s.Body.List {
 						cc2 := st2.(*ast.CaseClause)
 						if cc2.List == nil {
@@ -549,7 +713,17 @@ func genSgrCases(c *ex.Ctx, fCell, fSS, fStyle, fVx, fSgr, fQuirks *ast.File, st
 		}
 		sb.WriteString("]\n")
 		fmt.Fprintf(&sb, "def %sUlSubs : List Nat := %s\n", co.name, natList(co.ulSubs))
-		fmt.Fprintf(&sb, "def %sUlDefault : Bool := %v\n\n", co.name, co.ulDefault)
+		fmt.Fprintf(&sb, "def %sUlDefault : Bool := %v\n", co.name, co.ulDefault)
+		if co.name != "ssParse" {
+			// round 4: (label, [legacyMin, rgbMin, idxSkip, rgbSkip, selector of the 3-, 5-, 6-sub-parameter colon forms])
+			fmt.Fprintf(&sb, "def %sExt : List (Nat × List Nat) := [", co.name)
+			for i, f := range co.ext {
+				fmt.Fprintf(&sb, "(%d, %s)%s", f.label, natList([]int{f.legacyMin, f.rgbMin, f.idxSkip, f.rgbSkip, f.s3, f.s5, f.s6}), sep(i, len(co.ext)))
+			}
+			sb.WriteString("]\n")
+			fmt.Fprintf(&sb, "def %sExtUnknown : List String := %s\n", co.name, strList(co.extUnk))
+		}
+		sb.WriteString("\n")
 	}
 
 	// producers
